@@ -311,4 +311,33 @@ def bnd_view(f, c):
             out.setdefault('shapes', {})[k] = list(np.shape(f.variables[k]))
     out['tflag'] = [[int(a), int(b)] for a, b in np.asarray(f.variables['TFLAG'][:, 0, :])]
     out['etflag'] = [[int(a), int(b)] for a, b in np.asarray(f.variables['ETFLAG'][:, 0, :])]
+    out['raw'] = bnd_raw(f)
     return out
+
+
+def bnd_raw(f):
+    """the records as the reader's own maps present them, in the form of the Lean `Boundary.showFile`"""
+    pay = lambda a: a.tobytes()[4:-4].hex()
+    hdr = [pay(f._lateral_boundary__emiss_hdr), pay(f._lateral_boundary__grid_hdr), pay(f._lateral_boundary__cell_hdr),
+           f._lateral_boundary__spc_hdr.tobytes().hex()]
+    defs = [pay(f._boundary_def[k]) for k in ('WEST', 'EAST', 'SOUTH', 'NORTH')]
+    mm = f.__memmap__
+    steps = []
+    for t in range(mm.shape[0]):
+        recs = [pay(mm[t][s][e]) for s in mm.dtype.names[1:] for e in ('WEST', 'EAST', 'SOUTH', 'NORTH')]
+        steps.append('%s:%s' % (pay(mm[t]['DATE']), ','.join(recs) or '-'))
+    return 'headers=%s defs=%s steps=%s' % (','.join(hdr), ','.join(defs), '|'.join(steps) or '-')
+
+
+def bnd_model_diff(hexbytes, view):
+    """the Memmap reader's own maps against the Lean reader model applied to the same bytes (None = equal)"""
+    out = lib.run_model(['bin bnd-read %s' % (hexbytes or '-')])[0]
+    if 'err' in view:
+        return None if out.startswith('err') else 'Memmap reader raised %s, the Lean reader model reads the file' % view['err']
+    if not out.startswith('ok '):
+        return 'Lean reader model: %s, the Memmap reader read the file' % out[:40]
+    if out[3:] != view['raw']:
+        a, b = out[3:], view['raw']
+        i = next((k for k, (x, y) in enumerate(zip(a, b)) if x != y), min(len(a), len(b)))
+        return 'records of the Memmap reader differ from the Lean reader model at character %d (...%s / ...%s)' % (i, a[max(0, i - 20):i + 20], b[max(0, i - 20):i + 20])
+    return None
